@@ -101,7 +101,7 @@ def canon(ops):
     return [op for _, op in keyed]
 
 
-def ops_diff(a, b, tol=TOL):
+def ops_diff(a, b, tol=TOL, nonfinite_equal=False):
     """None when the canonical op lists agree (floats to tol), else a short description."""
     if len(a) != len(b):
         return f'op-count {len(a)} vs {len(b)}'
@@ -116,12 +116,15 @@ def ops_diff(a, b, tol=TOL):
             if len(x[3]) != len(y[3]):
                 return f'param-count {x[1]}'
             for p, q in zip(x[3], y[3]):
+                if nonfinite_equal and not (math.isfinite(p) and math.isfinite(q)):
+                    if p == q or (math.isnan(p) and math.isnan(q)):
+                        continue
                 if not (math.isfinite(p) and math.isfinite(q)) or not gen.close(p, q, tol):
                     return f'params {x[1]} {p!r} vs {q!r}'
         elif x[0] == 'B':
             if x[1] != y[1] or x[2] != y[2]:
                 return f'block location {x[1:3]} vs {y[1:3]}'
-            d = ops_diff(x[3], y[3], tol)
+            d = ops_diff(x[3], y[3], tol, nonfinite_equal)
             if d:
                 return 'block: ' + d
         elif x != y:
